@@ -39,6 +39,10 @@ class Case:
         self.light = light
         # (C20 only) the test first writes a mapping slot m[K] (base slot 1, K outside halmos' precomputed table) either
         # through the literal hash constant or by hashing at run time, and a guard reads it back through either form
+        # optional vm.warp / vm.roll at the start of the test (on the trunk path) and guards on TIMESTAMP / NUMBER
+        self.block_cheat = ch.choose([None, None, None, ("warp", 1000), ("roll", 77), ("warp", 1)], "c.blockcheat")
+        # optional no-op diamond at the start: both siblings then run the whole guard chain
+        self.diamond = ch.chance(0.25, "c.diamond")
         self.store_form = None
         if store_forms and ch.chance(0.6, "c.sf"):
             self.store_form = (ch.choose(["lit", "hash"], "c.sf.w"), ch.choose(["hash", "lit"], "c.sf.r"), ch.choose([0xDEAD, 0xBEEF], "c.sf.k"))
@@ -97,7 +101,7 @@ class Case:
             kinds += ["mod2", "smod2", "sdiv2", "addmod3", "mulmod3", "exp2"]
         if self.nstatic >= 2:
             kinds += ["lt2"] if self.light else ["mul2", "div2", "lt2"]
-        kinds += ["hasheq"]
+        kinds += ["hasheq", "blockval"]
         if self.setup_value is not None:
             kinds += ["state", "stateconst"]
         if self.has_bytes:
@@ -173,6 +177,13 @@ class Case:
         if k == "hasheq":
             self.uses_hash = True
             return ("hasheq", i, int.from_bytes(keccak256(w[i].to_bytes(32, "big")), "big"))
+        if k == "blockval":
+            # the block field holds what this test set, or the setUp-time default (timestamp 1, number 1)
+            which = ch.choose(["TIMESTAMP", "NUMBER"], lbl + ".bf")
+            val = 1
+            if self.block_cheat and ((self.block_cheat[0] == "warp") == (which == "TIMESTAMP")):
+                val = self.block_cheat[1]
+            return ("blockval", which, val)
         if k == "state":
             return ("state_eq", i) if w[i] == self.setup_value else ("state_ne", i)
         if k == "stateconst":
@@ -190,8 +201,9 @@ class Case:
         ch = self.ch
         i = ch.pick(self.nstatic, lbl + ".i")
         base = ["eq2", "parity", "range", "mulparity", "divzero", "modzero", "smodzero", "sdivzero", "addmodzero", "mulmodzero"]
+        base += ["hashinj"]
         if self.light:
-            base = ["eq2", "parity", "range", "mulparity"]
+            base = ["eq2", "parity", "range", "mulparity", "hashinj"]
         k = ch.choose(base + (["lenbad"] if self.has_bytes else []), lbl + ".k")
         if k in ("mulparity", "divzero", "modzero", "smodzero", "sdivzero", "addmodzero", "mulmodzero"):
             self.uses_abstraction = True
@@ -260,6 +272,13 @@ class Case:
             self._arg(a, g[1]); a.push(0).op("MSTORE"); a.push(0x20).push(0).op("SHA3"); a.push(g[2]); cmp_jump("EQ")
         elif k == "state_eq":
             a.push(0).op("SLOAD"); self._arg(a, g[1]); cmp_jump("EQ")
+        elif k == "blockval":
+            a.op(g[1]); a.push(g[2]); cmp_jump("EQ")
+        elif k == "contra_hashinj":
+            # arg_i + 1 != arg_i is always true, yet keccak(arg_i + 1) == keccak(arg_i) would need a collision
+            self._arg(a, g[1]); a.push(0).op("MSTORE"); a.push(0x20).push(0).op("SHA3")
+            a.push(1); self._arg(a, g[1]); a.op("ADD"); a.push(0).op("MSTORE"); a.push(0x20).push(0).op("SHA3")
+            cmp_jump("EQ")
         elif k == "stateconst":
             a.push(0).op("SLOAD"); a.push(g[1]); cmp_jump("EQ")
         elif k == "state_ne":
@@ -342,6 +361,14 @@ class Case:
 
         def body(a):
             fail = a.fresh("other")
+            if self.block_cheat:
+                A.emit_vm_call(a, "warp(uint256)" if self.block_cheat[0] == "warp" else "roll(uint256)", [self.block_cheat[1]])
+                a.op("POP")
+            if self.diamond:
+                d1 = a.fresh("dia")
+                self._arg(a, 0); a.push(2).op("AND").jumpi(d1)
+                a.push(0).op("POP")
+                a.label(d1)
             if self.store_form:
                 wform, rform, key = self.store_form
                 a.push(0x77); slot_form(a, wform, key); a.op("SSTORE")
@@ -420,6 +447,9 @@ class Case:
                     name = args[68:68 + n].decode()
                     return True, (symvals.get(name) or 0).to_bytes(32, "big")
                 return False, b""
+            if sel in (A.selector("warp(uint256)"), A.selector("roll(uint256)")):
+                evm.block["timestamp" if sel == A.selector("warp(uint256)") else "number"] = int.from_bytes(args[4:36], "big")
+                return True, b""
             if sel == A.selector("assertTrue(bool)"):
                 if int.from_bytes(args[4:36], "big") == 0:
                     st["failed"] = True
